@@ -111,12 +111,53 @@ STUB_ATTRS = (
 )
 
 
-def _copy_harness(src, dst):
-    """copy a harness file, attaching the global memcpy/memmove stubs to every proof harness"""
+HARNESS_FN_RE = re.compile(r"(?m)^[ \t]*//[ \t]*@ob[^\n]*\n(?:[ \t]*(?://[^\n]*|#\[[^\n]*\])\n)*[ \t]*(?:(?:pub\s+)?fn\s+([A-Za-z0-9_]+)\s*\(|[a-z_]+_harness!\(\s*([A-Za-z0-9_]+)\s*,)")
+
+
+def _copy_harness(src, dst, profile="model"):
+    """copy a harness file, attaching the global memcpy/memmove stubs to every proof harness;
+    for the native replay profile append a name -> harness dispatcher instead"""
     t = open(src).read()
-    t = re.sub(r"(?m)^([ \t]*)#\[kani::proof\]\n", lambda m: m.group(0) + STUB_ATTRS, t)
+    if profile != "native":
+        t = re.sub(r"(?m)^([ \t]*)#\[kani::proof\]\n", lambda m: m.group(0) + STUB_ATTRS, t)
+    else:
+        names = []
+        for m in HARNESS_FN_RE.finditer(t):
+            seg = t[m.start():m.end()]
+            if 'feature = "jv_real")]' in seg and "not(feature" not in seg:
+                continue
+            names.append(m.group(1) or m.group(2))
+        arms = "".join('        "%s" => {\n            %s();\n            true\n        }\n' % (n, n) for n in names)
+        t += "\n#[allow(dead_code)]\npub(crate) fn jv_dispatch(name: &str) -> bool {\n    match name {\n%s        _ => false,\n    }\n}\n" % arms
     open(dst, "w").write(t)
 
+
+NATIVE_MAIN = """
+#[cfg(all(kani, test))]
+mod jv_native_replay {
+    #[test]
+    fn replay() {
+        let name = std::env::var("JV_HARNESS").expect("JV_HARNESS");
+        let seed: u64 = std::env::var("JV_SEED").ok().and_then(|s| s.parse().ok()).unwrap_or(0);
+        kani::jv_seed(seed);
+        let r = std::panic::catch_unwind(std::panic::AssertUnwindSafe(|| {
+            let mut found = false;
+%s            assert!(found, "JV-NO-SUCH-HARNESS");
+        }));
+        match r {
+            Ok(()) => println!("JV-RESULT pass"),
+            Err(e) => {
+                if e.is::<kani::AssumeFailed>() {
+                    println!("JV-RESULT assume");
+                } else {
+                    println!("JV-RESULT fail values={:?}", kani::jv_log());
+                    std::process::exit(9);
+                }
+            }
+        }
+    }
+}
+"""
 
 CARGO_TOML = """[package]
 name = "jammdb"
@@ -162,7 +203,7 @@ def generate(out, harness_dir=None, repo=REPO, quiet=False, profile="model"):
     shutil.rmtree(src_out)
     os.makedirs(jv_out)
     report = {"files": [], "redirects": {}, "harness_modules": []}
-    for f in sorted(os.listdir(src_in)):
+    for f in sorted(os.listdir(src_in), key=lambda x: (x == "lib.rs", x)):
         if not f.endswith(".rs"):
             continue
         orig = open(os.path.join(src_in, f)).read()
@@ -173,24 +214,35 @@ def generate(out, harness_dir=None, repo=REPO, quiet=False, profile="model"):
         mod = f[:-3]
         h = os.path.join(harness_dir, f)
         if mod != "lib" and os.path.exists(h):
-            _copy_harness(h, os.path.join(jv_out, f))
+            _copy_harness(h, os.path.join(jv_out, f), profile)
             new += '\n#[cfg(kani)]\n#[path = "jv/%s"]\npub(crate) mod jv;\n' % f
             report["harness_modules"].append(mod)
         if mod == "lib":
             for t in sorted(os.listdir(harness_dir)):
                 if t.startswith("top_") and t.endswith(".rs"):
-                    _copy_harness(os.path.join(harness_dir, t), os.path.join(jv_out, t))
+                    _copy_harness(os.path.join(harness_dir, t), os.path.join(jv_out, t), profile)
                     new += '\n#[cfg(kani)]\n#[path = "jv/%s"]\npub mod jv_%s;\n' % (t, t[:-3])
                     report["harness_modules"].append(t[:-3])
+        if profile == "native":
+            # the replay build sets cfg(test): disable the repository's own unit-test modules in this derived copy
+            new = new.replace("#[cfg(test)]", "#[cfg(jv_never)]")
+            if mod == "lib":
+                mods = list(report["harness_modules"])
+                calls = "".join("            found |= crate::%s::jv_dispatch(&name);\n" % (("jv_" + m) if m.startswith("top_") else (m + "::jv")) for m in mods if m != "top_stubs")
+                new += NATIVE_MAIN % calls
         open(os.path.join(src_out, f), "w").write(new)
         report["files"].append(f)
         if log:
             report["redirects"][f] = sorted(set(a for a, _ in log))
     env = os.path.join(VERIF, "env")
     fnv = 'fnv = "1.0.7"' if profile == "real" else 'fnv = { path = "%s/fnv" }' % env
+    if profile == "native":
+        fnv += '\nkani = { path = "%s/kani_native" }' % env
     open(os.path.join(out, "Cargo.toml"), "w").write(CARGO_TOML.format(env=env, fnv=fnv, feat=('"jv_real"' if profile == "real" else "")))
     report["profile"] = profile
     lock = os.path.join(VERIF, "lib", "Cargo.lock.%s" % profile)
+    if profile == "native":
+        lock = os.path.join(VERIF, "lib", "Cargo.lock.none")
     if os.path.exists(lock):
         shutil.copy(lock, os.path.join(out, "Cargo.lock"))
     if not quiet:
